@@ -73,7 +73,7 @@ func GenBodyWide(r *Rand, kind string) BodySpec {
 func rcClient(r *Rand, idx int, focus string) ClientSpec {
 	key := r.key()
 	cs := ClientSpec{Addr: clientAddr(idx), Key: key, SrvKey: key, Real: true}
-	n := 1 + r.Intn(6)
+	n := 1 + r.Intn(up(6))
 	seq := 1
 	sid := r.session()
 	for k := 0; k < n; k++ {
@@ -145,7 +145,7 @@ func rcClient(r *Rand, idx int, focus string) ClientSpec {
 func codecProbeClient(r *Rand, idx int, focus string) ClientSpec {
 	key := r.key()
 	cs := ClientSpec{Addr: clientAddr(idx), Key: key, SrvKey: key}
-	n := 1 + r.Intn(6)
+	n := 1 + r.Intn(up(6))
 	for k := 0; k < n; k++ {
 		typ := uint8(1 + r.Intn(3))
 		kind := PickOf(r, requestKinds(typ)...)
